@@ -511,4 +511,112 @@ def parseStubs (ls : List SLine) : Option (Txt × List DeclSum) :=
 
 def declSum (fn : Function) : DeclSum := ⟨fn.doc, fn.pragmas, fn.stub⟩
 
+/-! ### token hypotheses under which the text can be read back (used by Props/C11Text) -/
+
+def NoNL (t : Txt) : Prop := '\n' ∉ t
+
+/-- No reserved line prefix: what makes a line a label line. -/
+def LabelOK (l : Txt) : Prop :=
+  let t := l ++ [':']
+  t.head? ≠ some '\t' ∧
+  stripPrefix ['/', '/'] t = none ∧ stripPrefix ['T', 'E', 'X', 'T', ' ', '·'] t = none ∧
+  stripPrefix ['#', 'i', 'n', 'c', 'l', 'u', 'd', 'e', ' '] t = none ∧ stripPrefix ['D', 'A', 'T', 'A', ' '] t = none ∧
+  stripPrefix ['G', 'L', 'O', 'B', 'L', ' '] t = none
+
+/-- Token hypotheses of one structured line of an assembly file. -/
+def WFLine : SLine → Prop
+  | .blank => True
+  | .comment _ => True
+  | .raw t => (stripPrefix ['/', '/'] t).isSome = true
+  | .incl _ => True
+  | .text n _ _ _ => '(' ∉ n
+  | .instr o s ops w =>
+    let ows := opcodeWithSuffixes o s
+    ' ' ∉ ows ∧ ows.head? ≠ some '/' ∧ (joinWith [',', ' '] ops).head? ≠ some ' ' ∧
+      (ops ≠ [] → ows.length ≤ w)
+  | .label l => LabelOK l
+  | .icomment _ => True
+  | .data .. => True
+  | .globl .. => True
+  | .pkg _ => False
+  | .pragma .. => False
+  | .decl _ => False
+
+/-- Flag names of the attribute table contain no newline. -/
+def NamesOK (names : List (Nat × String)) : Prop := ∀ p ∈ names, NoNL p.2.toList
+
+/-- Token hypotheses of an instruction. -/
+structure WFInstr (i : Instr) : Prop where
+  nonl : NoNL i.ows
+  nosp : ' ' ∉ i.ows
+  noslash : i.ows.head? ≠ some '/'
+  ops_nonl : ∀ o ∈ i.operands, NoNL o
+  ops_head : (joinWith [',', ' '] i.operands).head? ≠ some ' '
+
+def WFNode : Node → Prop
+  | .instr i => WFInstr i
+  | .label l => NoNL l ∧ LabelOK l
+  | .comment ls => ∀ l ∈ ls, NoNL l
+
+structure WFFn (f : Function) : Prop where
+  name_nonl : NoNL f.name
+  name_paren : '(' ∉ f.name
+  stub : NoNL f.stub
+  isa : ∀ x ∈ f.isa, NoNL x
+  nodes : ∀ n ∈ f.nodes, WFNode n
+
+structure WFGl (g : Global) : Prop where
+  sym : NoNL g.sym
+  vals : ∀ d ∈ g.data, NoNL d.value
+
+def WFSec : Sec → Prop
+  | .fn f => WFFn f
+  | .gl g => WFGl g
+
+/-- The explicit token hypotheses of `print_faithful`: no newline in any
+token; names without `(`; opcodes without space, not starting with `/`;
+operand text not starting with a space; labels not starting with a reserved
+line prefix; constraint lines are `//` comments. -/
+structure WFFile (names : List (Nat × String)) (cfg : Config) (f : File) : Prop where
+  names : NamesOK names
+  cfgname : NoNL cfg.name
+  argv : ∀ a ∈ cfg.argv.getD [], NoNL a
+  cons : ∀ c ∈ f.constraints, NoNL c ∧ (stripPrefix ['/', '/'] c).isSome = true
+  incl : ∀ p ∈ f.includes, NoNL p
+  secs : ∀ s ∈ f.sections, WFSec s
+
+
+/-! Decidability of the hypotheses (so that they can be evaluated on concrete files). -/
+
+instance (t : Txt) : Decidable (NoNL t) := by unfold NoNL; exact inferInstance
+instance (l : Txt) : Decidable (LabelOK l) := by unfold LabelOK; exact inferInstance
+instance (names) : Decidable (NamesOK names) := by unfold NamesOK; exact inferInstance
+
+instance (i : Instr) : Decidable (WFInstr i) :=
+  decidable_of_iff (NoNL i.ows ∧ ' ' ∉ i.ows ∧ i.ows.head? ≠ some '/' ∧ (∀ o ∈ i.operands, NoNL o) ∧
+      (joinWith [',', ' '] i.operands).head? ≠ some ' ')
+    ⟨fun ⟨a, b, c, d, e⟩ => ⟨a, b, c, d, e⟩, fun h => ⟨h.1, h.2, h.3, h.4, h.5⟩⟩
+
+instance : (n : Node) → Decidable (WFNode n)
+  | .instr i => inferInstanceAs (Decidable (WFInstr i))
+  | .label l => inferInstanceAs (Decidable (NoNL l ∧ LabelOK l))
+  | .comment ls => inferInstanceAs (Decidable (∀ l ∈ ls, NoNL l))
+
+instance (f : Function) : Decidable (WFFn f) :=
+  decidable_of_iff (NoNL f.name ∧ '(' ∉ f.name ∧ NoNL f.stub ∧ (∀ x ∈ f.isa, NoNL x) ∧ ∀ n ∈ f.nodes, WFNode n)
+    ⟨fun ⟨a, b, c, d, e⟩ => ⟨a, b, c, d, e⟩, fun h => ⟨h.1, h.2, h.3, h.4, h.5⟩⟩
+
+instance (g : Global) : Decidable (WFGl g) :=
+  decidable_of_iff (NoNL g.sym ∧ ∀ d ∈ g.data, NoNL d.value) ⟨fun ⟨a, b⟩ => ⟨a, b⟩, fun h => ⟨h.1, h.2⟩⟩
+
+instance : (s : Sec) → Decidable (WFSec s)
+  | .fn f => inferInstanceAs (Decidable (WFFn f))
+  | .gl g => inferInstanceAs (Decidable (WFGl g))
+
+instance (names cfg f) : Decidable (WFFile names cfg f) :=
+  decidable_of_iff (NamesOK names ∧ NoNL cfg.name ∧ (∀ a ∈ cfg.argv.getD [], NoNL a) ∧
+      (∀ c ∈ f.constraints, NoNL c ∧ (stripPrefix ['/', '/'] c).isSome = true) ∧ (∀ p ∈ f.includes, NoNL p) ∧
+      ∀ s ∈ f.sections, WFSec s)
+    ⟨fun ⟨a, b, c, d, e, g⟩ => ⟨a, b, c, d, e, g⟩, fun h => ⟨h.1, h.2, h.3, h.4, h.5, h.6⟩⟩
+
 end Avo.Print
